@@ -1,0 +1,23 @@
+//go:build verif
+
+package pipeline
+
+import "github.com/ozontech/file.d/pipeline/metadata"
+
+// Exported wrappers for the C20 correspondence harness (/verif/harness/c20). Add-only.
+
+// VerifC20UnbanIterations is the constant the pipeline hands to its antispammer.
+const VerifC20UnbanIterations = antispamUnbanIterations
+
+// VerifC20CheckInputBytes calls the unexported size check of Pipeline.In.
+func (p *Pipeline) VerifC20CheckInputBytes(b []byte, sourceName string, meta metadata.MetaData) ([]byte, bool, bool) {
+	return p.checkInputBytes(b, sourceName, meta)
+}
+
+// VerifC20AntispamMaintenance runs one maintenance round of the pipeline's antispammer.
+func (p *Pipeline) VerifC20AntispamMaintenance() { p.antispamer.Maintenance() }
+
+// VerifC20AntispamCounter reads the counter of a source of the pipeline's antispammer.
+func (p *Pipeline) VerifC20AntispamCounter(id string) (int32, bool) {
+	return p.antispamer.VerifC20Counter(id)
+}
